@@ -6,8 +6,9 @@ Space (every member is visited):
                x every choice of internal ('!') commands that leaves at least one real command
                x two assignments of names to positions (so that a two-element ``parents`` set is
                  iterated in both orders under one hash seed)
-               x default command {not given, the last real command}
-               x order in which the per-parser options are added {declaration order, reverse}
+               x default command {not given, the last real command}            (graphs of <= 4 commands;
+               x order in which the per-parser options are added {declaration   5 commands: not given,
+                 order, reverse}                                                 declaration order)
                x hash seeds {own} (quick) / {0, 1, 2} (thorough; other seeds run in sub-processes)
   argv         : for every real command c and every parser p: [c, --opt-p, v]; for every real c:
                  [c], [c, --common, v], [c, -v], [c, --color, never], [c, --no-color]; and without a
@@ -69,8 +70,8 @@ def bounds(tier):
     return {"max_commands": n,
             "graphs": sum(2 ** (k * (k - 1) // 2) for k in range(1, n + 1)),
             "internal_flags": "all choices leaving >= 1 real command",
-            "name_assignments": 2, "default_command": ["not given", "last real command"],
-            "option_add_order": ["declaration", "reverse"],
+            "name_assignments": 2, "default_command": ["not given", "last real command (n <= 4)"],
+            "option_add_order": ["declaration", "reverse (n <= 4)"],
             "hash_seeds": [_own_hashseed()] if tier == "quick" else THOROUGH_SEEDS}
 
 
@@ -307,8 +308,10 @@ def _explore_block(hs, n, lo, hi, acc):
         for internal in M.internal_choices(n):
             real = [i for i in range(n) if not internal[i]]
             for naming in (0, 1):
-                for dflt in ("-", str(real[-1])):
-                    for order in ("fwd", "rev"):
+                # n == 5 (thorough only): the default-command and option-order decorations were
+                # already multiplied with every graph of <= 4 commands; keep the plain ones
+                for dflt in (("-", str(real[-1])) if n <= 4 else ("-",)):
+                    for order in (("fwd", "rev") if n <= 4 else ("fwd",)):
                         if acc.expired():
                             return
                         case = {"n": n, "parents": parents, "internal": [int(x) for x in internal], "naming": naming,
